@@ -535,7 +535,7 @@ impl Default for GenCfg {
             p_rejected: 0,
             write_chance: 16,
             extended_universe: false,
-            rt_skew: 0,
+            rt_skew: 4,
             p_copy_deps: 0,
         }
     }
